@@ -615,3 +615,218 @@ Proof.
   pose proof (import_blocks_fold total bl Hok bl [] [] eq_refl) as Hfold. cbn [NR map concat length] in Hfold.
   unfold import. destruct (w_desc o); cbn [app]; rewrite Eblocks; exact Hfold.
 Qed.
+
+(* ---- the series that comes back ---- *)
+Lemma imp_series_spec f ps (s : series) : WF A s ->
+  let s' := imp_series f ps s in
+  WF A s' /\ Trimmed A s' /\ s_nv s' = s_nv s /\
+  (forall t, row_at A s' t = if in_dec Z.eq_dec t ps then map rnd (row_at A s t) else missrow A (s_nv s)) /\
+  (s_start s' <> None -> s_freq s' = f).
+Proof.
+  intros Hwf s'. unfold s', imp_series.
+  split; [exact (set_data_WF A miss_law f (empty_series A (s_nv s)) ps _ (empty_WF A _))|].
+  split; [exact (set_data_Trimmed A miss_law f (empty_series A (s_nv s)) ps _ None (empty_WF A _) (or_intror eq_refl))|].
+  split; [exact (set_data_nv A f (empty_series A (s_nv s)) ps _)|].
+  split.
+  - intros t. rewrite (row_at_set_data A miss_law) by apply empty_WF.
+    destruct (in_dec Z.eq_dec t ps) as [Hin|Hout].
+    + rewrite (last_assoc_map A t ps (fun u => map rnd (row_at A s u))) by assumption.
+      cbn [empty_series s_nv]. apply bcast_row_id. rewrite map_length. now apply row_at_length.
+    + rewrite last_assoc_notin by assumption. reflexivity.
+  - destruct ps as [|p0 pr]; [intros H; exfalso; apply H; reflexivity|].
+    unfold set_data, build, trim. cbn [empty_series s_start s_freq s_nv s_data].
+    destruct (drop_leading A _) as [m r1]. destruct (rev (snd (drop_leading A (rev r1)))); cbn [s_start s_freq].
+    + intros H. exfalso. now apply H.
+    + reflexivity.
+Qed.
+
+(* ---- from the databox to the blocks ---- *)
+Lemma In_series_of_freq (db : databox) f n d s :
+  In (n, (d, s)) (series_of_freq A db f) <-> In (n, ISer A d s) db /\ sfreq A s = f.
+Proof.
+  unfold series_of_freq. rewrite in_flat_map. split.
+  - intros ([k it] & Hin & Hx). cbn [fst snd] in Hx. destruct it as [[v|d0 s0]|l]; try destruct Hx.
+    destruct (Z.eqb_spec (sfreq A s0) f) as [Ef|]; [|destruct Hx]. destruct Hx as [Hx|[]]. inversion Hx; subst.
+    split; [exact Hin|reflexivity].
+  - intros [Hin Ef]. exists (n, ISer A d s). split; [assumption|]. cbn [fst snd ISer].
+    rewrite Ef, Z.eqb_refl. now left.
+Qed.
+
+Lemma In_db_dget (db : databox) n it : ND A db -> (In (n, it) db <-> dget A db n = Some it).
+Proof.
+  unfold ND. induction db as [|[k v] r IH]; intros Hnd; cbn [dget names map fst] in *.
+  - split; [intros []|discriminate].
+  - inversion Hnd as [|? ? Hn1 Hn2]; subst. destruct (String.eqb_spec k n) as [->|Hne].
+    + split.
+      * intros [E|Hin]; [now inversion E|]. exfalso. apply Hn1. apply in_map_iff. now exists (n, it).
+      * intros E. inversion E. now left.
+    + rewrite <- (IH Hn2). split; [intros [E|Hin]; [inversion E; congruence|assumption]|intros Hin; now right].
+Qed.
+
+Lemma sof_names_sub (db : databox) f n : In n (map fst (series_of_freq A db f)) -> In n (names A db).
+Proof.
+  intros H. apply in_map_iff in H as ([k [d s]] & <- & Hin). apply In_series_of_freq in Hin as [Hin _].
+  apply in_map_iff. now exists (k, ISer A d s).
+Qed.
+
+Lemma sof_NoDup (db : databox) f : ND A db -> NoDup (map fst (series_of_freq A db f)).
+Proof.
+  unfold ND. induction db as [|[k v] r IH]; intros Hnd; [constructor|].
+  cbn [names map fst] in Hnd. inversion Hnd as [|? ? Hn1 Hn2]; subst.
+  change (series_of_freq A ((k, v) :: r) f) with
+    ((match v with INon (ESer d s) => if sfreq A s =? f then [(k, (d, s))] else [] | _ => [] end) ++ series_of_freq A r f).
+  specialize (IH Hn2).
+  assert (Hk : ~ In k (map fst (series_of_freq A r f))) by (intros Hx; apply Hn1; eapply sof_names_sub; eauto).
+  destruct v as [[x|d s]|l]; try exact IH. destruct (sfreq A s =? f); [|exact IH].
+  cbn [app map fst]. now constructor.
+Qed.
+
+Definition blocks_of_db (db1 : databox) (fs : list (Z * list Z)) : list blockT :=
+  flat_map (fun p => match series_of_freq A db1 (fst p) with [] => [] | its => [(fst p, snd p, its)] end) fs.
+
+Lemma export_as_blocks (db : databox) :
+  export A fmt_period fmt_val rnd db o
+  = hcat_all (map (bgrid (total_rows (resolve_fspan A (selected A db o) (w_fspan o))))
+                  (blocks_of_db (selected A db o) (resolve_fspan A (selected A db o) (w_fspan o)))).
+Proof.
+  unfold export. f_equal. unfold blocks_of_db.
+  induction (resolve_fspan A (selected A db o) (w_fspan o)) as [|p fs IH] at 2 4; [reflexivity|].
+  cbn [flat_map]. rewrite map_app, IH. f_equal.
+  destruct (series_of_freq A (selected A db o) (fst p)); reflexivity.
+Qed.
+
+Lemma In_blocks (db1 : databox) fs (b : blockT) :
+  In b (blocks_of_db db1 fs) <->
+  In (fst b) fs /\ snd b = series_of_freq A db1 (fst (fst b)) /\ snd b <> [].
+Proof.
+  unfold blocks_of_db. rewrite in_flat_map. split.
+  - intros (p & Hp & Hb). destruct (series_of_freq A db1 (fst p)) as [|x r] eqn:E; [destruct Hb|].
+    destruct Hb as [<-|[]]. cbn [fst snd]. rewrite <- surjective_pairing. rewrite E. repeat split; [assumption|discriminate].
+  - intros (Hp & Hs & Hne). exists (fst b). split; [assumption|].
+    destruct b as [[f ps] its]. cbn [fst snd] in *. rewrite <- Hs. destruct its; [contradiction|now left].
+Qed.
+
+Lemma total_rows_ge (fs : list (Z * list Z)) p : In p fs -> (length (snd p) <= total_rows fs)%nat.
+Proof.
+  unfold total_rows.
+  assert (G : forall l m, (m <= fold_left (fun m p => Nat.max m (length (snd p))) l m)%nat /\
+                          forall q : Z * list Z, In q l -> (length (snd q) <= fold_left (fun m p => Nat.max m (length (snd p))) l m)%nat).
+  { induction l as [|x r IH]; intros m; cbn [fold_left]; [split; [lia|intros q []]|].
+    destruct (IH (Nat.max m (length (snd x)))) as [I1 I2]. split; [lia|].
+    intros q [->|Hq]; [lia|now apply I2]. }
+  intros H. now apply (proj2 (G fs O)).
+Qed.
+
+Lemma NoDup_app_intro {T} (a b : list T) : NoDup a -> NoDup b -> (forall x, In x a -> ~ In x b) -> NoDup (a ++ b).
+Proof.
+  induction a as [|x r IH]; intros Ha Hb Hd; [assumption|]. inversion Ha; subst. cbn [app]. constructor.
+  - rewrite in_app_iff. intros [H|H]; [contradiction|]. apply (Hd x); [now left|assumption].
+  - apply IH; [assumption|assumption|]. intros y Hy. apply Hd. now right.
+Qed.
+
+Lemma blocks_names_NoDup (db1 : databox) fs : ND A db1 -> NoDup (map fst fs) ->
+  NoDup (concat (map (fun b : blockT => map fst (snd b)) (blocks_of_db db1 fs))).
+Proof.
+  intros Hnd. induction fs as [|p fs IH]; intros Hfs; [constructor|].
+  cbn [map] in Hfs. inversion Hfs as [|? ? Hf1 Hf2]; subst.
+  unfold blocks_of_db. cbn [flat_map]. rewrite map_app, concat_app. apply NoDup_app_intro.
+  - destruct (series_of_freq A db1 (fst p)) as [|x r] eqn:E; [constructor|]. rewrite <- E. cbn [map concat snd].
+    rewrite app_nil_r. now apply sof_NoDup.
+  - now apply IH.
+  - intros n Hn1 Hn2.
+    assert (H1 : exists d s, In (n, ISer A d s) db1 /\ sfreq A s = fst p).
+    { destruct (series_of_freq A db1 (fst p)) as [|x r] eqn:E; [destruct Hn1|]. rewrite <- E in Hn1.
+      cbn [map concat snd] in Hn1. rewrite app_nil_r in Hn1. apply in_map_iff in Hn1 as ([k [d s]] & <- & Hin).
+      apply In_series_of_freq in Hin. now exists d, s. }
+    destruct H1 as (d & s & Hin & Ef).
+    apply in_concat in Hn2 as (l & Hl & Hn2). apply in_map_iff in Hl as (b & <- & Hb).
+    apply In_blocks in Hb as (Hb1 & Hb2 & _). rewrite Hb2 in Hn2.
+    apply in_map_iff in Hn2 as ([k [d' s']] & Ek & Hin'). cbn [fst] in Ek. subst k.
+    apply In_series_of_freq in Hin' as [Hin' Ef'].
+    apply (In_db_dget db1 n _ Hnd) in Hin. apply (In_db_dget db1 n _ Hnd) in Hin'.
+    rewrite Hin in Hin'. inversion Hin'; subst s' d'.
+    apply Hf1. apply in_map_iff. exists (fst b). split; [transitivity (sfreq A s); [symmetry; exact Ef'|exact Ef]|assumption].
+Qed.
+
+Lemma ND_shallow (db : databox) s t : ND A (d_shallow A db s t).
+Proof.
+  unfold d_shallow.
+  assert (G : forall l acc, ND A acc ->
+    ND A (fold_left (fun acc p => match dget A db (fst p) with Some v => dset A acc (snd p) v | None => acc end) l acc)).
+  { induction l as [|x r IH]; intros acc H; cbn [fold_left]; [assumption|].
+    apply IH. destruct (dget A db (fst x)); [now apply ND_dset|assumption]. }
+  apply G. constructor.
+Qed.
+
+Lemma resolve_fspan_fst (db1 : databox) l : map fst (resolve_fspan A db1 l) = map fst l.
+Proof. unfold resolve_fspan. rewrite map_map. reflexivity. Qed.
+
+(* ====================================================================== csv_roundtrip *)
+Theorem csv_roundtrip (db : databox) :
+  let db1 := selected A db o in
+  let fs := resolve_fspan A db1 (w_fspan o) in
+  NoDup (map fst (w_fspan o)) ->
+  (forall n d s ps, dget A db1 n = Some (ISer A d s) -> In (sfreq A s, ps) fs ->
+     good_name n /\ WF A s /\ (1 <= s_nv s)%nat /\ ps <> [] /\
+     is_start (mark_of_freq (sfreq A s)) = Some (sfreq A s)) ->
+  exists db', import A parse_period parse_val (w_desc o) (export A fmt_period fmt_val rnd db o) = Ok db' /\
+    (forall n d s ps, dget A db1 n = Some (ISer A d s) -> In (sfreq A s, ps) fs ->
+       let s' := imp_series (sfreq A s) ps s in
+       dget A db' n = Some (ISer A (kept_desc A ps s' (if w_desc o then d else ""%string)) s')) /\
+    (forall n, (forall d s ps, dget A db1 n = Some (ISer A d s) -> ~ In (sfreq A s, ps) fs) -> dget A db' n = None).
+Proof.
+  intros db1 fs Hfs Hgood.
+  assert (Hnd1 : ND A db1) by apply ND_shallow.
+  set (bl := blocks_of_db db1 fs).
+  assert (Hmem : forall n d s ps, dget A db1 n = Some (ISer A d s) -> In (sfreq A s, ps) fs ->
+             In (sfreq A s, ps, series_of_freq A db1 (sfreq A s)) bl /\
+             In (n, (d, s)) (series_of_freq A db1 (sfreq A s))).
+  { intros n d s ps Hget Hin.
+    assert (Hs : In (n, (d, s)) (series_of_freq A db1 (sfreq A s))).
+    { apply In_series_of_freq. split; [now apply In_db_dget|reflexivity]. }
+    split; [|assumption]. apply In_blocks. cbn [fst snd]. repeat split; [assumption|].
+    intros E. rewrite E in Hs. destruct Hs. }
+  assert (Hbl : forall b, In b bl -> forall p, In p (snd b) ->
+             dget A db1 (fst p) = Some (ISer A (fst (snd p)) (snd (snd p))) /\ sfreq A (snd (snd p)) = fst (fst b) /\
+             In (fst b) fs).
+  { intros b Hb p Hp. apply In_blocks in Hb as (Hb1 & Hb2 & _). rewrite Hb2 in Hp.
+    destruct p as [n [d s]]. apply In_series_of_freq in Hp as [Hp Ef]. cbn [fst snd].
+    split; [now apply In_db_dget|]. split; assumption. }
+  assert (Hok : Forall (b_ok (total_rows fs)) bl).
+  { apply Forall_forall. intros b Hb. pose proof (Hbl b Hb) as Hp.
+    pose proof Hb as Hb'. apply In_blocks in Hb' as (Hb1 & Hb2 & Hb3).
+    assert (Hall : forall p, In p (snd b) ->
+              good_name (fst p) /\ WF A (snd (snd p)) /\ (1 <= s_nv (snd (snd p)))%nat /\ snd (fst b) <> [] /\
+              is_start (mark_of_freq (fst (fst b))) = Some (fst (fst b))).
+    { intros p Hin. destruct (Hp p Hin) as (Hget & Ef & Hfs').
+      destruct (Hgood (fst p) (fst (snd p)) (snd (snd p)) (snd (fst b)) Hget) as (G1 & G2 & G3 & G4 & G5).
+      - rewrite Ef, <- surjective_pairing. exact Hfs'.
+      - rewrite Ef in G5. tauto. }
+    unfold b_ok. split; [|split; [|split]].
+    - apply Forall_forall. intros p Hin. destruct (Hall p Hin). tauto.
+    - destruct (snd b) as [|p0 r0] eqn:E0; [contradiction|]. destruct (Hall p0 (or_introl eq_refl)). tauto.
+    - apply (total_rows_ge fs (fst b) Hb1).
+    - destruct (snd b) as [|p0 r0] eqn:E0; [contradiction|]. destruct (Hall p0 (or_introl eq_refl)). tauto. }
+  assert (Hnames : NoDup (map fst (concat (map imported bl)))).
+  { rewrite concat_map, map_map.
+    replace (map (fun x => map fst (imported x)) bl) with (map (fun b : blockT => map fst (snd b)) bl)
+      by (apply map_ext; intros b; unfold imported; now rewrite map_map).
+    apply blocks_names_NoDup; [assumption|]. unfold fs. now rewrite resolve_fspan_fst. }
+  rewrite export_as_blocks. fold db1 fs bl.
+  destruct bl as [|b0 bl0] eqn:Ebl.
+  - exists []. split; [reflexivity|]. split; [|reflexivity].
+    intros n d s ps Hget Hin. destruct (Hmem n d s ps Hget Hin) as [[] _].
+  - rewrite <- Ebl in *. rewrite import_export_blocks by (try assumption; rewrite Ebl; discriminate).
+    eexists. split; [reflexivity|].
+    destruct (dget_fold_dset A (concat (map imported bl)) [] Hnames) as [D1 D2]. split.
+    + intros n d s ps Hget Hin s'. apply D1. destruct (Hmem n d s ps Hget Hin) as [Hb Hp].
+      apply in_concat. exists (imported (sfreq A s, ps, series_of_freq A db1 (sfreq A s))).
+      split; [apply in_map; exact Hb|]. unfold imported. cbn [fst snd].
+      apply in_map_iff. exists (n, (d, s)). split; [reflexivity|exact Hp].
+    + intros n Hn. rewrite D2; [reflexivity|]. intros Hx.
+      apply in_map_iff in Hx as ([k it] & Ek & Hx). cbn [fst] in Ek. subst k.
+      apply in_concat in Hx as (l & Hl & Hx). apply in_map_iff in Hl as (b & <- & Hb).
+      unfold imported in Hx. apply in_map_iff in Hx as (p & Ep & Hp). inversion Ep; subst.
+      destruct (Hbl b Hb p Hp) as (Hget & Ef & Hfs').
+      apply (Hn _ _ (snd (fst b)) Hget). rewrite Ef, <- surjective_pairing. exact Hfs'.
+Qed.
